@@ -410,6 +410,21 @@ class Normalizer:
 
     def _stmt(self, st, cls, depth) -> List[ast.stmt]:
         pre: List[ast.stmt] = []
+        # `it = chain(a, b)` / `it = (x, y)` ... `for v in it:` loops over that expression (remembered until `it` is stored again)
+        binds = getattr(self, "_iter_bind", None)
+        if binds is None:
+            binds = self._iter_bind = {}
+        if isinstance(st, ast.For) and isinstance(st.iter, ast.Name) and st.iter.id in binds:
+            st = copy.copy(st)
+            st.iter = copy.deepcopy(binds[st.iter.id])
+        for n in ast.walk(st) if not isinstance(st, (ast.For, ast.While, ast.If, ast.With, ast.Try)) else []:
+            if isinstance(n, ast.Name) and isinstance(n.ctx, (ast.Store, ast.Del)):
+                binds.pop(n.id, None)
+        if isinstance(st, ast.Assign) and len(st.targets) == 1 and isinstance(st.targets[0], ast.Name):
+            v = st.value
+            if (isinstance(v, ast.Call) and (A.dotted(v.func) or "") in ("chain", "itertools.chain") and not v.keywords) or \
+                    (isinstance(v, ast.Tuple) and 0 < len(v.elts) <= 4 and all(isinstance(x, (ast.Name, ast.Attribute, ast.Constant)) for x in v.elts)):
+                binds[st.targets[0].id] = v
         if isinstance(st, ast.Match):
             low = self._lower_match(st)
             if low is not None:
@@ -457,6 +472,40 @@ class Normalizer:
             g = self._inline_gen_for(st, cls, depth)
             if g is not None:
                 return g
+        # `yield from helper()` of a generator helper is `for x in helper(): yield x`
+        if isinstance(st, ast.Expr) and isinstance(st.value, ast.YieldFrom) and self._gen_target(st.value.value, cls) is not None:
+            tmp = self._fresh("y")
+            loop = ast.For(target=ast.Name(id=tmp, ctx=ast.Store()), iter=st.value.value,
+                           body=[ast.Expr(value=ast.Yield(value=ast.Name(id=tmp, ctx=ast.Load())))], orelse=[], type_comment=None)
+            ast.copy_location(loop, st)
+            ast.fix_missing_locations(loop)
+            return self._stmt(loop, cls, depth)
+        # for x in itertools.chain(a, b): BODY  is  for x in a: BODY; for x in b: BODY
+        if isinstance(st, ast.For) and isinstance(st.iter, ast.Call) and (A.dotted(st.iter.func) or "").split(".")[-1] == "chain" \
+                and (A.dotted(st.iter.func) or "") in ("chain", "itertools.chain") and not st.iter.keywords and not st.orelse \
+                and 0 < len(st.iter.args) <= 4 and not any(isinstance(a, ast.Starred) for a in st.iter.args) \
+                and not any(isinstance(n, (ast.Break, ast.Continue)) for n in _walk_own(st.body, loops=False)):
+            out = []
+            for a in st.iter.args:
+                loop = ast.For(target=copy.deepcopy(st.target), iter=a, body=copy.deepcopy(st.body), orelse=[], type_comment=None)
+                ast.copy_location(loop, st)
+                ast.fix_missing_locations(loop)
+                out.extend(self._stmt(loop, cls, depth))
+            return out
+        # a loop over a short tuple display of arbitrary expressions: the body once per element, the element assigned first
+        if isinstance(st, ast.For) and isinstance(st.iter, (ast.Tuple, ast.List)) and isinstance(st.target, ast.Name) \
+                and 0 < len(st.iter.elts) <= 4 and not all(isinstance(x, ast.Constant) for x in st.iter.elts) and not st.orelse \
+                and not any(isinstance(x, ast.Starred) for x in st.iter.elts) \
+                and all(isinstance(x, (ast.Name, ast.Attribute, ast.Constant, ast.Subscript)) for x in st.iter.elts) \
+                and len(st.body) <= 4 and not any(isinstance(n, (ast.Break, ast.Continue)) for n in _walk_own(st.body, loops=False)):
+            out = []
+            for c in st.iter.elts:
+                a = ast.copy_location(ast.Assign(targets=[ast.Name(id=st.target.id, ctx=ast.Store())], value=copy.deepcopy(c), lineno=st.lineno), st)
+                ast.fix_missing_locations(a)
+                out.extend(self._stmt(a, cls, depth))
+                for b in st.body:
+                    out.extend(self._stmt(copy.deepcopy(b), cls, depth))
+            return out
         # X.extend(gen()) / X.update(gen()) as statements
         if isinstance(st, ast.Expr) and isinstance(st.value, ast.Call) and isinstance(st.value.func, ast.Attribute) \
                 and st.value.func.attr in ("extend", "update") and len(st.value.args) == 1 and not st.value.keywords \
@@ -627,6 +676,13 @@ class Normalizer:
         binds = [(pn, v) for pn, v in binds if pn not in direct]
         ren = _Renamer(mapping)
         body = [ren.visit(x) for x in body]
+        consts = {mapping.get(pn, pn): v for pn, v in binds if pn not in rebound and (
+            isinstance(v, ast.Constant) or (isinstance(v, ast.Tuple) and 0 < len(v.elts) <= 4 and all(
+                isinstance(x, (ast.Name, ast.Attribute, ast.Constant)) for x in v.elts)))}
+        if consts:
+            sub = _SubstName(consts)
+            body = [sub.visit(x) for x in body]
+            binds = [(pn, v) for pn, v in binds if mapping.get(pn, pn) not in consts]
         loop_body = st.body
         target = st.target
 
@@ -804,7 +860,10 @@ class Normalizer:
             body = [sub.visit(x) for x in body]
             binds = [(pn, v) for pn, v in binds if mapping.get(pn, pn) not in gens]
         # a parameter bound to a constant that the helper never rebinds is that constant (mode flags: `undo=False`)
-        consts = {mapping.get(pn, pn): v for pn, v in binds if isinstance(v, ast.Constant) and pn not in rebound}
+        def _simple_display(v):
+            return isinstance(v, ast.Tuple) and 0 < len(v.elts) <= 4 and all(isinstance(x, (ast.Name, ast.Attribute, ast.Constant)) and
+                                                                            not isinstance(x, ast.Starred) for x in v.elts)
+        consts = {mapping.get(pn, pn): v for pn, v in binds if pn not in rebound and (isinstance(v, ast.Constant) or _simple_display(v))}
         if consts:
             sub = _SubstName(consts)
             body = [sub.visit(s) for s in body]
@@ -819,6 +878,11 @@ class Normalizer:
                 continue
             a = ast.Assign(targets=[ast.Name(id=tgt, ctx=ast.Store())], value=val, lineno=getattr(at_stmt, "lineno", 0))
             stmts.append(ast.copy_location(a, at_stmt))
+            if (isinstance(val, ast.Call) and (A.dotted(val.func) or "") in ("chain", "itertools.chain") and not val.keywords) or \
+                    (isinstance(val, ast.Tuple) and 0 < len(val.elts) <= 4 and all(isinstance(x, (ast.Name, ast.Attribute, ast.Constant)) for x in val.elts)):
+                if getattr(self, "_iter_bind", None) is None:
+                    self._iter_bind = {}
+                self._iter_bind[tgt] = val
         if _falls_through(body) and not tail:
             a = ast.Assign(targets=[ast.Name(id=ret, ctx=ast.Store())], value=ast.Constant(value=None), lineno=getattr(at_stmt, "lineno", 0))
             stmts.append(ast.copy_location(a, at_stmt))
@@ -863,13 +927,14 @@ class Normalizer:
             if is_yield_stmt(x):
                 pre, post = body[:i], body[i + 1:]
                 break
-            if isinstance(x, ast.Try) and not x.handlers and not x.orelse and len(x.body) == 1 and is_yield_stmt(x.body[0]):
-                pre, post, guarded = body[:i], list(x.finalbody) + body[i + 1:], True
+            if isinstance(x, ast.Try) and len(x.body) == 1 and is_yield_stmt(x.body[0]):
                 if body[i + 1:]:
                     return None
-                post = list(x.finalbody)
+                pre, post, guarded = body[:i], list(x.finalbody), x
                 break
         if pre is None or _has_return(pre + post):
+            return None
+        if guarded is not False and _has_return([guarded]):
             return None
         try:
             self.k += 1
@@ -879,7 +944,7 @@ class Normalizer:
             self.opaque.append(f"{qual}: {e}")
             return None
         selfname = fn.args.args[0].arg if (fn.args.args and bind_self is not None) else None
-        whole = ast.Module(body=pre + post, type_ignores=[])
+        whole = ast.Module(body=pre + post + ([guarded] if guarded is not False else []), type_ignores=[])
         locals_ = _stored_names(whole) | {a.arg for a in fn.args.args + fn.args.kwonlyargs}
         mapping = {n: f"{n}__{k}" for n in locals_}
         if selfname and bind_self is True:
@@ -904,8 +969,15 @@ class Normalizer:
             post_n = self._block(post, callee_cls, depth - 1)
         finally:
             self._stack.pop()
-        if guarded:
-            out.append(ast.copy_location(ast.Try(body=inner, handlers=[], orelse=[], finalbody=post_n), st))
+        if guarded is not False:
+            # the generator's own try statement around the yield, with the `with` body in the yield's place
+            handlers = []
+            for h in guarded.handlers:
+                h2 = ren.visit(copy.deepcopy(h))
+                h2.body = self._block(h2.body, callee_cls, depth - 1)
+                handlers.append(h2)
+            orelse = self._block([ren.visit(copy.deepcopy(x)) for x in guarded.orelse], callee_cls, depth - 1)
+            out.append(ast.copy_location(ast.Try(body=inner, handlers=handlers, orelse=orelse, finalbody=post_n), st))
         else:
             out.extend(inner)
             out.extend(post_n)
